@@ -1,5 +1,6 @@
 import Umya.Driver.Proto
 import Umya.Model.NumFmt
+import Umya.Model.NumFmtCell
 import Umya.Model.Date
 import Umya.Model.NumFmtDispatch
 import Umya.Model.Gen.Tables
@@ -50,8 +51,46 @@ def dispEnv (bits : Nat) (rem hours hoursAbs : List Char) : Umya.NumFmtDispatch.
   let x := Float.ofBits (UInt64.ofNat bits)
   { val := x, absVal := Float.abs x, rem := rem, hours := hours, hoursAbs := hoursAbs }
 
+/-- `cellk`: the cell kinds of `CellRawValue`, a trailing `f` = a formula is present -/
+def errOfText (t : List Char) : Option ErrKind :=
+  [ErrKind.div0, .name, .na, .num, .value, .ref, .null, .data].find? (fun e => errDisplay e == t)
+
+def cellOfKind (kind : String) (v : List Char) : Option CellV :=
+  -- a leading `L` = the harness took the cell from a saved workbook read back lazily: the same cell to the model
+  let kind := if kind.startsWith "L" then String.ofList (kind.toList.drop 1) else kind
+  let (base, f) := if kind.endsWith "f" && kind != "f" then (String.ofList (kind.toList.dropLast), true) else (kind, false)
+  let raw : Option Raw :=
+    match base with
+    | "str" => some (.string v)
+    | "rich" => some (.richText v)
+    | "lazy" => some (.lazy v)
+    | "num" => if isPlainDecimal v then some (.numeric v) else none
+    | "bool" => if v = "TRUE".toList then some (.bool true) else if v = "FALSE".toList then some (.bool false) else none
+    | "err" => (errOfText v).map .error
+    | "empty" => if v = [] then some .empty else none
+    | _ => none
+  raw.map (fun r => ⟨r, f⟩)
+
+def outCell (c : CellV) (code : Option (List Char)) : String :=
+  let dt := rawGetDataType c.raw
+  match getFormattedValue c code with
+  | none => "unmodelled"
+  | some r => s!"{encodeStr r} {if dt.isEmpty then "-" else String.ofList dt} {if reachesFormatter c then "num" else "text"}"
+
 def handle (args : List String) : String :=
   match args with
+  | ["cellk", kind, v, "none"] =>
+    match decodeStr v with
+    | some v => (match cellOfKind kind v with
+                 | some c => outCell c none
+                 | none => "bad-op")
+    | none => "bad-op"
+  | ["cellk", kind, v, p] =>
+    match decodeStr v, decodeStr p with
+    | some v, some p => (match cellOfKind kind v with
+                         | some c => outCell c (some p)
+                         | none => "bad-op")
+    | _, _ => "bad-op"
   | ["disp", n, b, v, r, h, ha] =>
     -- preconditions (checked by the harness): `v` is the Display text of the finite double with bit pattern `b`,
     -- `r` of `abs % 1`, `h` of `* 24`, `ha` of `abs * 24`
